@@ -189,6 +189,9 @@ class Recording(BaseScheduler):
         run.in_policy = True
         try:
             placements = self.__dict__["_inner"].schedule(sim_time, workload, worker_pools)
+        except Exception as e:  # the policy raised: that is the decision the model replays (the run aborts)
+            run.decisions.append({"runtime": 0, "placements": [], "raised": type(e).__name__})
+            raise
         finally:
             run.in_policy = False
         run.record_decision(sim_time, placements)
